@@ -26,6 +26,7 @@ def run(ctx):
     ctx.do(NP.rule_clo1, [LIE, HOM])
     ctx.do(NP.rule_stk1, [LIE, HOM])
     ctx.do(D.rule_lk1, [LIE])
+    ctx.do(D.rule_lk3, [LIE, HOM])
     ctx.do(MI.rule_exp1, [LIE])
     ctx.do(u1, ENTRIES, min_functions=12)
     ctx.r.assume("that products go to products, determinants, preserved "
